@@ -267,6 +267,20 @@ impl Prop for C11 {
                     gen: enum_small,
                 },
             },
+            Stage {
+                name: "many-ops",
+                kind: StageKind::Enumerate {
+                    scope: "6 fixed diffs with thousands of ops (7000 items with every third removed, 6000 with an item inserted after every third, 5000 with every fourth replaced; Myers and Patience)".into(),
+                    exhaustive: true,
+                    gen: |_t, f| {
+                        for c in many_ops_cases() {
+                            if !f(Case::Seq(c)) {
+                                return;
+                            }
+                        }
+                    },
+                },
+            },
             Stage { name: "random", kind: StageKind::Random { strategy: strat, cases: tier.pick(1_000_000, 6_000_000) } },
         ]
     }
